@@ -6,13 +6,15 @@ open Mitum Mitum.BlockImport
 
 def current : Checks :=
   { emptyRootChecked := Gen.C16.emptyRootChecked, majorityChecked := Gen.C16.majorityChecked,
-    importerChecksItems := Gen.C16.importerChecksItems }
+    importerChecksItems := Gen.C16.importerChecksItems,
+    validatorOpSelf := Gen.C16.validatorOpSelf, validatorStateSelf := Gen.C16.validatorStateSelf,
+    importerOpSelf := Gen.C16.importerOpSelf, importerGenesisOpSelf := Gen.C16.importerGenesisOpSelf,
+    importerStateSelf := Gen.C16.importerStateSelf }
 
 def range1 (base n : Nat) : List Nat := (List.range n).map (fun i => base + i + 1)
 
 /-- the block the harness writes for a variant (same construction as harness/c16.go c16write) -/
-def build (variant : String) (nops nsts : Nat) : Blk :=
-  let h := 33
+def build (variant : String) (nops nsts : Nat) (h : Nat := 33) : Blk :=
   let ops := range1 0 nops
   let sts := (range1 100 nsts).map (fun k => (k, h))
   let b : Blk :=
@@ -56,6 +58,9 @@ def build (variant : String) (nops nsts : Nat) : Blk :=
   -- a tree whose leaf carries another key under the old node hash is not a tree of the manifest root (ideal hash:
   -- the root is identified with the key list)
   | "op-replaced-at-leaf" => { b with ops := ops.dropLast ++ [60], opsTree := ops.dropLast ++ [60] }
+  -- the body of the last operation / state rewritten, every hash it carries kept
+  | "op-body-rewritten" => { b with badOps := 1 }
+  | "state-body-rewritten" => { b with badSts := 1 }
   | "state-replaced-at-leaf" => { b with sts := sts.dropLast ++ [(160, h)], stsTree := (sts.map (·.1)).dropLast ++ [160] }
   | _ => b
 
@@ -66,17 +71,20 @@ end Mitum.Driver.BlockImportDrv
 namespace Mitum.Driver
 open Mitum Mitum.BlockImport
 
-/-- `blk <variant> <operations> <states>` -/
-def stepC16 (ts : List String) : String :=
-  match ts with
-  | ["blk", variant, a, b] =>
+def stepC16h (variant a b : String) (h : Nat) : String :=
     match a.toNat?, b.toNat? with
     | some nops, some nsts =>
       -- a manifest root without the tree item fails BlockMap.IsValid (checkItems), before either gate looks at the items
       if variant = "no-ops-root-set" then "importer=reject validator=reject"
       else
-        let blk := BlockImportDrv.build variant nops nsts
+        let blk := BlockImportDrv.build variant nops nsts h
         s!"importer={BlockImportDrv.verdict (importerAccepts BlockImportDrv.current blk)} validator={BlockImportDrv.verdict (validatorAccepts BlockImportDrv.current blk)}"
     | _, _ => "bad-op"
+
+/-- `blk <variant> <operations> <states> [genesis]` -/
+def stepC16 (ts : List String) : String :=
+  match ts with
+  | ["blk", variant, a, b] => stepC16h variant a b 33
+  | ["blk", variant, a, b, "genesis"] => stepC16h variant a b 0
   | _ => "bad-op"
 end Mitum.Driver
